@@ -107,3 +107,46 @@ package common
 //@   ensures [nowriteat] fwcount == old(fwcount)
 //@   ensures [created] ncreated <= old(ncreated) + 1 && (ncreated == old(ncreated) + 1 ==> createdpath == dstPath)
 //@   ensures [success] err == nil ==> ncreated == old(ncreated) + 1
+
+// ---------------------------------------------------------------- page element views (unsafe: trusted, A-unsafe)
+// brelem/lfelem name the element structs inside the page buffer, bkeyof/lkeyof the key bytes they point to.
+//@ uninterp func brelem(p *Page, i int) *branchPageElement
+//@ uninterp func lfelem(p *Page, i int) *leafPageElement
+//@ uninterp func bkeyof(n *branchPageElement) string
+//@ uninterp func lkeyof(n *leafPageElement) string
+
+//@ func (*Page).BranchPageElements
+//@   trusted
+//@   props C19
+//@   ensures len(result) == p.count
+//@   modifies nothing
+
+//@ func (*Page).BranchPageElement
+//@   trusted
+//@   props C19
+//@   ensures result == brelem(p, index) && result != nil
+//@   modifies nothing
+
+//@ func (*branchPageElement).Key
+//@   trusted
+//@   props C19
+//@   ensures bytesval(result) == bkeyof(n) && result != nil
+//@   modifies nothing
+
+//@ func (*Page).LeafPageElements
+//@   trusted
+//@   props C19
+//@   ensures len(result) == p.count
+//@   modifies nothing
+
+//@ func (*Page).LeafPageElement
+//@   trusted
+//@   props C19
+//@   ensures result == lfelem(p, index) && result != nil
+//@   modifies nothing
+
+//@ func (*leafPageElement).Key
+//@   trusted
+//@   props C19
+//@   ensures bytesval(result) == lkeyof(n) && result != nil
+//@   modifies nothing
